@@ -194,20 +194,20 @@ class _D(ast.NodeTransformer):
         it = node.iter
         if isinstance(it, ast.Name) and it.id in getattr(self, "gens", {}):
             it = self.gens[it.id]   # a generator expression held in a local that is bound once and iterated once
-        if isinstance(it, ast.GeneratorExp) and len(it.generators) == 1 and not node.orelse and not it.generators[0].is_async \
-                and isinstance(node.target, (ast.Name, ast.Tuple)):
-            g = it.generators[0]
-            tnames = {x.id for x in ast.walk(g.target) if isinstance(x, ast.Name)}
+        if isinstance(it, ast.GeneratorExp) and 1 <= len(it.generators) <= 3 and not node.orelse and not any(g.is_async for g in it.generators) \
+                and isinstance(node.target, (ast.Name, ast.Tuple)) and (len(it.generators) == 1 or not _own_jump(node.body)):
+            tnames = {x.id for g in it.generators for x in ast.walk(g.target) if isinstance(x, ast.Name)}
             vnames = {x.id for x in ast.walk(node.target) if isinstance(x, ast.Name)}
             body_names = {x.id for b in node.body for x in ast.walk(b) if isinstance(x, ast.Name)}
             if not (tnames & body_names - vnames) or tnames == vnames:
                 inner = list(node.body)
                 if not (isinstance(it.elt, ast.Name) and isinstance(node.target, ast.Name) and it.elt.id == node.target.id):
                     inner = [_loc(ast.Assign(targets=[node.target], value=it.elt, type_comment=None), node)] + inner
-                for c in reversed(g.ifs):
-                    inner = [_loc(ast.If(test=c, body=inner, orelse=[]), node)]
-                fused = _loc(ast.For(target=g.target, iter=g.iter, body=inner, orelse=[], type_comment=None), node)
-                return self.visit_For(fused)
+                for g in reversed(it.generators):
+                    for c in reversed(g.ifs):
+                        inner = [_loc(ast.If(test=c, body=inner, orelse=[]), node)]
+                    inner = [_loc(ast.For(target=g.target, iter=g.iter, body=inner, orelse=[], type_comment=None), node)]
+                return self.visit_For(inner[0])
         if isinstance(it, ast.Name) and it.id in self.lits:
             it = self.lits[it.id]
         # D.items() over a literal dict: the (key, value) pairs in order
